@@ -314,7 +314,13 @@ impl Evaluator {
             }
         }
 
-        eval
+        // A heuristic score must never look like a mate score: with enough extra material the sum
+        // above passes POS_INF (and even mate_in_ply(0), the root's search window, so that no move
+        // could ever raise alpha and the search had no line to report)
+        eval.clamp(
+            Evaluation(Evaluation::NEG_INF.0 + 1),
+            Evaluation(Evaluation::POS_INF.0 - 1),
+        )
     }
 }
 
